@@ -106,7 +106,32 @@ const FEATURE: &[(&str, &str, &str)] = &[
     // repetition near-miss by en passant: same placement with and without the ep file
     ("ep-near-repeat", "4k3/8/8/8/8/8/3P4/4K1Nn w - - 0 1", "d2d4 h1g3 g1f3 g3h1 f3g1"),
     ("threefold-test", "8/5ppk/7p/8/P1P1PQ2/8/Pr2N1KR/8 w - - 3 42", "f4f5 h7g8 f5c8 g8h7"),
+    // a KING captures a rook that still carries a castling right (all four corners via mirrors)
+    ("king-takes-h1-rook", "8/8/8/8/8/8/P5k1/4K2R b K - 0 1", ""),
+    ("king-takes-a1-rook", "8/8/8/8/8/8/1k5P/R3K3 b Q - 0 1", ""),
+    ("king-takes-h8-rook", "r3k2r/6K1/8/8/8/8/8/8 w kq - 3 40", ""),
+    ("king-takes-a8-rook", "r3k2r/1K6/8/8/8/8/8/8 w kq - 3 40", ""),
+    // non-rook pieces capture corner rooks that carry rights
+    ("minor-takes-corner-rook", "r3k2r/8/8/3B4/3b4/8/8/R3K2R w KQkq - 0 1", ""),
+    ("knight-takes-corner-rook", "r3k2r/8/1N4N1/8/8/1n4n1/8/R3K2R w KQkq - 0 1", ""),
+    // one right left, then the king moves / castles
+    ("one-right-left", "r3k2r/8/8/8/8/8/8/4K2R w Kkq - 0 1", ""),
+    ("one-right-left-q", "r3k3/8/8/8/8/8/8/R3K2R w KQq - 0 1", ""),
 ];
+
+/// Long games: the walk starts after 100+, 260+, 520+ and 1030+ plies (knights shuffling), so
+/// that anything that depends on the LENGTH of the history (fixed-size windows, caps, counters)
+/// is exercised. The half-move clock passes 100, 256 and 1000 on the way.
+pub fn long_game(plies: usize) -> Vec<String> {
+    let cycle = ["g1f3", "g8f6", "f3g1", "f6g8", "b1c3", "b8c6", "c3b1", "c6b8"];
+    let mut v = vec!["e2e3".to_string(), "e7e6".to_string()];
+    let mut k = 0;
+    while v.len() < plies {
+        v.push(cycle[k % cycle.len()].to_string());
+        k += 1;
+    }
+    v
+}
 
 pub fn mirror_seed(s: &Seed) -> Option<Seed> {
     let p = Pos::from_fen(&s.fen).ok()?;
@@ -133,6 +158,14 @@ pub fn all() -> Vec<Seed> {
                 class,
             });
         }
+    }
+    for n in [101usize, 262, 523, 1030] {
+        v.push(Seed {
+            name: format!("long-game-{n}"),
+            fen: START.to_string(),
+            prefix: long_game(n),
+            class: Class::Feature,
+        });
     }
     for (k, f) in include_str!("bench_fens.txt").lines().enumerate() {
         let f = f.trim();
